@@ -420,11 +420,14 @@ pub open spec fn parts_of(s: Seq<ClaimableHTLC>) -> Seq<MppPart> { Seq::new(s.le
         let mut claimable_amt_msat: u64 = 0; let mut expected_amt_msat: Option<u64> = None; let mut valid_mpp = true;
         let mut __i: usize = 0;   // R6: for htlc in sources.iter()
         while __i < sources.len()
-            invariant __i <= sources@.len(), valid_mpp, value_sum(parts_of(sources@)) <= u64::MAX,
-                claimable_amt_msat as int == value_sum(parts_of(sources@).take(__i as int)),
-                __i == 0 ==> expected_amt_msat is None, __i > 0 ==> expected_amt_msat == sources@[0].mpp_part.total_value_received,
-                forall|a: int, b: int| 0 <= a < sources@.len() && 0 <= b < sources@.len() ==> sources@[a].mpp_part.total_value_received == sources@[b].mpp_part.total_value_received,
-            ensures __i == sources@.len(),
+            invariant_except_break valid_mpp,
+            invariant __i <= sources@.len(), value_sum(parts_of(sources@)) <= u64::MAX,
+                valid_mpp ==> claimable_amt_msat as int == value_sum(parts_of(sources@).take(__i as int)),
+                valid_mpp && __i == 0 ==> expected_amt_msat is None, valid_mpp && __i > 0 ==> expected_amt_msat == sources@[__i as int - 1].mpp_part.total_value_received,
+            ensures valid_mpp ==> __i == sources@.len() && claimable_amt_msat as int == value_sum(parts_of(sources@).take(__i as int))
+                    && (__i == 0 ==> expected_amt_msat is None) && (__i > 0 ==> expected_amt_msat == sources@[__i as int - 1].mpp_part.total_value_received),
+                !valid_mpp ==> exists|k: int| 0 < k < sources@.len() && sources@[k - 1].mpp_part.total_value_received is Some
+                    && #[trigger] sources@[k].mpp_part.total_value_received != sources@[k - 1].mpp_part.total_value_received,
             decreases sources@.len() - __i
         {
             proof { lemma_isum_step(parts_of(sources@), __i as int); lemma_isum_mono(parts_of(sources@), __i as int + 1); }
@@ -440,12 +443,12 @@ pub open spec fn parts_of(s: Seq<ClaimableHTLC>) -> Seq<MppPart> { Seq::new(s.le
 //@ret r
 //@requires
     value_sum(parts_of(sources@)) <= u64::MAX, claiming_payment.amount_msat as int == value_sum(parts_of(sources@)),
-    // established by check_incoming_mpp_part when the set completed (proved above): every part records the same received total
-    forall|a: int, b: int| 0 <= a < sources@.len() && 0 <= b < sources@.len() ==> sources@[a].mpp_part.total_value_received == sources@[b].mpp_part.total_value_received,
-//@ensures P C04 a-payment-is-claimed-only-if-every-part-announced-in-PaymentClaimable-is-still-there-the-parts-add-up-to-the-recorded-total
-    r.0 ==> sources@.len() > 0 && sources@[0].mpp_part.total_value_received is Some
-        && value_sum(parts_of(sources@)) == sources@[0].mpp_part.total_value_received->Some_0,
-    r.1,
+//@ensures P C04 a-payment-is-claimed-only-if-every-part-announced-in-PaymentClaimable-is-still-there-the-parts-add-up-to-the-recorded-total-and-parts-that-disagree-on-that-total-are-never-claimed
+    r.0 && r.1 ==> sources@.len() > 0 && sources@.last().mpp_part.total_value_received is Some
+        && value_sum(parts_of(sources@)) == sources@.last().mpp_part.total_value_received->Some_0,
+    // reachable since F7: a completed payment that lost a part and gained a smaller one holds parts with and without a recorded total
+    !r.1 ==> exists|k: int| 0 < k < sources@.len() && sources@[k - 1].mpp_part.total_value_received is Some
+        && #[trigger] sources@[k].mpp_part.total_value_received != sources@[k - 1].mpp_part.total_value_received,
 //@mutant partial_set_claimed
     claimable_amt_msat != expected_amt_msat.unwrap()
 //@with
